@@ -342,3 +342,19 @@ Example C04_nonvacuous_nonlifo :
   /\ pick 2 nops (snd (erun 1 0 50 nops ne nh))
      = snd (erun 1 0 50 (filter (is_slot 2) nops) ne (fP (PQ_of 1 0 ne 2) nh)).
 Proof. exact ex_nonlifo. Qed.
+
+(* round 3: generators suspended INSIDE A RECURSION at the same time: n(z). n(s(X)) :- n(X).  c(a).  g0, g1, g2 enumerate n/1
+   and are suspended two, one and two calls deep (their steps interleaved); the oldest, g0, is closed; the probe g3 = c(V3) is
+   started.  Then next g3; next g1; next g3; next g2: the probe answers a and ends, g1 and g2 go on with s(s(z)) and
+   s(s(s(z))); probe and g1 observe what they observe when only they are advanced *)
+Example C04_nonvacuous_deep :
+  hist_ok 1 0 80 dprep init_engine [] /\ Forall qop dops /\ nowrite 1 0 80 dops de dh
+  /\ pick 3 dops (snd (erun 1 0 80 dops de dh)) = [xans "a"; otag "done" []]
+  /\ pick 1 dops (snd (erun 1 0 80 dops de dh)) = [xobs1 (xS (xS (xA "z")))]
+  /\ pick 2 dops (snd (erun 1 0 80 dops de dh)) = [xobs1 (xS (xS (xS (xA "z"))))]
+  /\ 4 <= length dh
+  /\ pick 3 dops (snd (erun 1 0 80 dops de dh))
+     = snd (erun 1 0 80 (filter (is_slot 3) dops) de (fP (PQ_of 1 0 de 3) dh))
+  /\ pick 1 dops (snd (erun 1 0 80 dops de dh))
+     = snd (erun 1 0 80 (filter (is_slot 1) dops) de (fP (PQ_of 1 0 de 1) dh)).
+Proof. exact ex_deep. Qed.
